@@ -254,6 +254,9 @@ func types(q req) resp {
 		return resp{Code: 103, Msg: err.Error()}
 	}
 	for n, txt := range q.Files {
+		if err := os.MkdirAll(filepath.Dir(filepath.Join(q.Dir, n)), 0o777); err != nil {
+			return resp{Code: 103, Msg: err.Error()}
+		}
 		if err := os.WriteFile(filepath.Join(q.Dir, n), []byte(txt), 0o666); err != nil {
 			return resp{Code: 103, Msg: err.Error()}
 		}
